@@ -350,6 +350,32 @@ def tlvs(data):
         return []
 
 
+INT_TAGS = (0x02, 0x41, 0x42, 0x43, 0x46)
+
+
+def bigint_variants(t, base=0):
+    """(absolute offset, (octets, sign), re-encoded TLV) for every integer-like
+    value below t replaced by a far wider one; enclosing lengths are
+    re-computed so that the datagram stays well-formed; descends into OCTET
+    STRINGs that hold BER (the USM block)"""
+    if t.children is not None:
+        for i, c in enumerate(t.children):
+            for pos, desc, new_c in bigint_variants(c, base):
+                content = b"".join(new_c if j == i else ch.raw for j, ch in enumerate(t.children))
+                yield pos, desc, bytes([t.tag]) + ber.enc_len(len(content)) + content
+    elif t.tag in INT_TAGS:
+        for k in (5, 9, 17, 64):
+            for sign, content in (("+", b"\x7f" + b"\xff" * (k - 1)), ("-", b"\x80" + b"\x00" * (k - 1))):
+                yield base + t.start, (k, sign), bytes([t.tag]) + ber.enc_len(k) + content
+    elif t.tag == 0x04 and t.length >= 2 and t.content[:1] == b"\x30":
+        try:
+            inner = ber.parse_all(t.content)
+        except ber.BerError:
+            return
+        for pos, desc, new_inner in bigint_variants(inner, base + t.cstart):
+            yield pos, desc, b"\x04" + ber.enc_len(len(new_inner)) + new_inner
+
+
 def family_cases(family, seed, tier, big):
     """-> list of (label, mutate function)"""
     n = len(seed)
@@ -384,6 +410,17 @@ def family_cases(family, seed, tier, big):
         for t in ts:
             for claim in (b"\x82\xff\xff", b"\x84\x7f\xff\xff\xff", b"\x84\xff\xff\xff\xff", b"\x88" + b"\xff" * 8, b"\x80"):
                 out.append((("lenclaim", t.start, claim.hex()), lambda d, t=t, claim=claim: d[: t.start + 1] + claim + d[t.start + t.hlen :]))
+    elif family == "bigint":
+        try:
+            root = ber.parse_all(seed)
+        except ber.BerError:
+            root = None
+        if root is not None:
+            vs = list(bigint_variants(root))
+            if big and len(vs) > 400:
+                vs = vs[:200] + vs[200::97]
+            for pos, (k, sign), new in vs:
+                out.append((("bigint", pos, k, sign), lambda d, new=new: new))
     elif family == "nesting":
         for depth in (10, 100, 1000, 4000, 16000):
             for tag in (0x30, 0xA2):
@@ -536,7 +573,7 @@ def shards(tier):
     names = QUICK_SEEDS if tier == "quick" else list(SEEDS)
     out = []
     for name in names:
-        fams = ["bits", "trunc", "header", "lenclaim"]
+        fams = ["bits", "trunc", "header", "lenclaim", "bigint"]
         for fam in fams:
             if fam == "header":
                 for part in range(8):
@@ -574,7 +611,7 @@ def run_shard(params, acc):
     big = target.kind in ("big", "many")
     fam = params["family"]
     small = len(seed) <= 200
-    measure = fam in ("lenclaim", "nesting") or (fam == "header" and small and params["tier"] == "thorough")
+    measure = fam in ("lenclaim", "nesting", "bigint") or (fam == "header" and small and params["tier"] == "thorough")
     baseline = 0
     if measure:
         # what the unmutated exchange allocates (e.g. the 1 MiB buffer of the
@@ -637,7 +674,7 @@ def replay(case):
     mutate = cases.get(label)
     if mutate is None:
         return [{"kind": "replay-case-not-found", "detail": case}]
-    outcome, over, peak, follow, delivered = target.deliver(mutate, case["family"] in ("lenclaim", "nesting"))
+    outcome, over, peak, follow, delivered = target.deliver(mutate, case["family"] in ("lenclaim", "nesting", "bigint"))
     out = []
     if over is not None:
         facts = {"seed": case["seed"], "mutation": list(label), "indefinite_length_octet": bool(delivered) and has_indefinite_header(delivered), "in_x690": any("x690/" in f for f in over.frames[:3])}
